@@ -85,8 +85,9 @@ CHECKS["C13"] = dict(
           "the mass matrix; triangle normals unit / orthogonal / following the winding for every triangle of non-zero area (any length "
           "unit); vertex normals are unit or negligible relative to the longest sum; qualities in (0,1] "
           "(Weitzenboeck) and = 1 for equilateral; volume sign flips under global re-orientation and volume() is translation invariant "
-          "for every mesh (VolumeTransP: the shift terms cancel between opposite half-edges of a closed oriented mesh). Direction of vertex normals, centroid, "
-          "avg_edge_length, normalize_, normal_offset_, the other rigid/scale laws and the volume branch structure are modelled and "
+          "for every mesh (VolumeTransP: the shift terms cancel between opposite half-edges of a closed oriented mesh); normal_offset_(d) is defined exactly on oriented meshes, "
+          "keeps the vertex count and moves vertex i by d * n_i, a displacement of length |d| wherever n_i is unit (NormalOffsetP). Direction of vertex normals, centroid, "
+          "avg_edge_length, normalize_ (theorem under C19), the other rigid/scale laws and the volume branch structure are modelled and "
           "tied by correspondence + metamorphic oracles on the implementation (partial)."),
     design="6/C13", technique="Coq proof over R (sqrt/field/nra) + vm_compute correspondence at binary64")
 
